@@ -86,6 +86,7 @@ PROPS = {
     note=E1_NOTE,
     technique=E1_TECH,
     e1=[dict(tu="c18_isequal.cpp")],
+    e3=[dict(group="C18")],
     rule=E1_RULE,
     explanation="every case of the property's case table is an obligation with the call under test inside the case.",
     not_decided="element loop over equal-shape ndarrays of run-time size; either with array alternatives; isclose tolerance on arrays",
@@ -97,6 +98,7 @@ PROPS = {
     note=E1_NOTE + " " + E2_NOTE,
     technique=E1_TECH + " + CFG ownership rule (allocate/deallocate pairing) on instantiations",
     e1=[dict(tu="c19_utl.cpp")],
+    e3=[dict(group="C19")],
     e2=[dict(rule="R-OWN")],
     rule=E1_RULE + "; E2: one instance per instantiated member function of utl::vector<int|double> and per destructor of either/maybe over a non-trivial alternative",
     explanation="class invariant assumed on entry and proved on exit of each mutator quantifies over every history; ownership discipline of utl::vector (allocate/deallocate pairing, deep copy, grow copies before freeing, destructor frees non-null) is a path property of each member function's CFG.",
@@ -105,13 +107,14 @@ PROPS = {
  ),
  "C20": dict(
     level="proof",
-    claim="Proof, for ndarray_t with fixed-rank shape over fixed and bounded buffers in row- and column-major layout and for hybrid_ndarray, ranks 1..3 (thorough 4), every request: after an accepted resize shape, strides, offset-functor strides and element count agree with the request; a refused resize (wrong element count, wrong rank, over capacity) leaves shape and buffer length unchanged; default construction establishes the same invariant.",
+    claim="Proof, for ndarray_t with fixed-rank shape over fixed and bounded buffers in row- and column-major layout and for hybrid_ndarray, ranks 1..3 (thorough 4), every request: after an accepted resize shape, strides, offset-functor strides and element count agree with the request; a refused resize (wrong element count, wrong rank, over capacity) leaves shape and buffer length unchanged; default construction establishes the same invariant; compile-fail witnesses: only mutable_* views (over non-const arrays) can hand out a writable element reference.",
     note=E1_NOTE,
     technique=E1_TECH,
     e1=[dict(tu="c20_ndarray.cpp")],
+    e3=[dict(group="C20")],
     rule=E1_RULE,
     explanation="post-state obligations over a fully symbolic array object and request.",
-    not_decided="dynamic-rank kinds, distinct indices -> distinct offsets (non-linear), cast, mutable views (E3, to be added)",
+    not_decided="dynamic-rank kinds, distinct indices -> distinct offsets (non-linear), cast; write-through changes nothing else (value level)",
     assumptions=["bounded buffer satisfies size<=capacity on entry (proved inductively under C19)"],
  ),
 }
@@ -193,6 +196,7 @@ PROPS["C11"] = dict(
     claim="All 33 specialisations of fixed_shape/fixed_dim/fixed_size/bounded_dim/bounded_size for view types derive every reported value only from the type of the view's own shape()/size() accessors (or its dst_shape_type/dst_size_type typedefs) or recursively from the same traits of operands: no literals, no value arithmetic other than the product of extents / operand bounds, never ::min for an upper bound and never ::max for an exact value. Because constant-index types carry their value in the type and clipped types clamp to max, 'reported = run time' resp. '>= run time' then holds by construction. Clipping events for particular run-time shapes are not decided.",
     note=E2_NOTE,
     technique="static: custom libTooling extractor + provenance grammar over trait specialisations",
+    e3=[dict(group="C11")],
     e2=[dict(rule="R-TRAITPROV")],
     rule="E2: one instance per lambda body of a trait specialisation for view::decorator_t<...>; distinct by (file, line)",
     explanation="Static knowledge disagreeing with run-time objects needs a trait value that is not read from the run-time accessor's type; that is visible in the shape of the trait's definition.",
